@@ -53,7 +53,7 @@ class Exec(ExecExpr):
             bn, br = self.ev(n.func.value, st)
             raises.extend(br)
             for c, base in bn:
-                for c2, b2 in self.strip_none(c, base, raises):
+                for c2, b2 in self.narrow_union(c, base, raises):
                     k = prim_kind(b2.ty)
                     if k is not None:
                         callee_states.append((c2, ('method', k, b2, n.func.attr)))
@@ -98,6 +98,20 @@ class Exec(ExecExpr):
                 out.extend(ns)
                 raises.extend(rs)
         return merge_states(out), raises
+
+    def narrow_union(self, st, base, raises):
+        """receiver whose static type is a union: one continuation per alternative, guarded by its run-time shape"""
+        if not isinstance(base.ty, Ty.TUnion):
+            return self.strip_none(st, base, raises)
+        out = []
+        rest = st
+        for t in base.ty.ts:
+            if rest is None:
+                break
+            yes, rest = self.fork(rest.copy(), shape(rest, base.term, t), None)
+            if yes is not None:
+                out.extend(self.strip_none(yes, SV(base.term, t), raises))
+        return out
 
     def strip_none(self, st, base, raises):
         """receiver of a method call: None -> AttributeError"""
